@@ -22,9 +22,9 @@ func init() {
 		Level: "exploration",
 		Cases: func(t string) int {
 			if t == "thorough" {
-				return 20000
+				return 200000
 			}
-			return 1500
+			return 6000
 		},
 		Batch: func(t string) int { return 75 },
 		Floors: []string{"values_encoded", "independent_decodes", "library_decodes", "shredded_files", "shredded_values_checked", "schema_exact", "schema_partial_or_mismatch", "schema_list", "schema_object", "read_convert_to_unshredded", "read_shredded_typed",
